@@ -49,7 +49,7 @@ def judge (cas : Bool) (this other st : Desc) : List String := Id.run do
 
 def handleStep (f : List String) : String × String × String :=
   match f with
-  | [cas, now, this, other, st, chg, nres, lk] =>
+  | [cas, now, this, other, st, chg, nres, lk, al] =>
     match parseDesc this, parseDesc other, now.toInt?, parseDesc st with
     | some this, some other, some now, some ist =>
       let cas := cas == "1"
@@ -61,6 +61,9 @@ def handleStep (f : List String) : String × String × String :=
       let j := if pre then judge cas this other ist else []
       let j := if nres != "1" then s!"nondeterministic-merge:{nres}-results" :: j else j
       let j := if lk != "inc=0,panic=0" then s!"lookup-broken:{lk}" :: j else j
+      -- readers hold snapshots sharing token storage with the replica's value: a merge must neither
+      -- change an earlier snapshot nor leave a long-lived client answering differently from a fresh one
+      let j := if al != "alias=0,snapmut=0" then s!"reader-sees-broken-index:{al}" :: j else j
       let acc := (C03.normalize other).foldl C03.stepEntry { this := this, updated := [], tokCh := false }
       let resolved := acc.tokCh && C03.conflictsExist acc.this
       let tags := s!"cas={cas} resolved={resolved} prewf={pre} chg={m.change.isSome} n={min this.length 4}x{min other.length 4}"
